@@ -342,9 +342,48 @@ def _kw(ev, kwargs, drop=()):
     return [(k, as_v(ev, v)) for k, v in kwargs.items() if k not in drop]
 
 
+# positional parameter names (numpy reference) and defaults that are made explicit, so that positional / keyword / defaulted
+# spellings of one call produce one canonical term:  name -> (parameter names, number kept positional, explicit defaults)
+NP_SIGS = {
+    "take": (["a", "indices", "axis"], 2, {}),
+    "sum": (["a", "axis"], 1, {}), "nansum": (["a", "axis"], 1, {}),
+    "min": (["a", "axis"], 1, {}), "max": (["a", "axis"], 1, {}), "amin": (["a", "axis"], 1, {}), "amax": (["a", "axis"], 1, {}),
+    "argmin": (["a", "axis"], 1, {}), "argmax": (["a", "axis"], 1, {}),
+    "nanquantile": (["a", "q", "axis"], 1, {}), "quantile": (["a", "q", "axis"], 1, {}),
+    "stack": (["arrays", "axis"], 1, {"axis": 0}),
+    "moveaxis": (["a", "source", "destination"], 1, {}),
+    "linspace": (["start", "stop", "num", "endpoint"], 3, {"endpoint": True}),
+    "repeat": (["a", "repeats", "axis"], 2, {}),
+    "diagonal": (["a", "offset", "axis1", "axis2"], 1, {}),
+    "searchsorted": (["a", "v", "side"], 2, {"side": "left"}),
+    "random.binomial": (["n", "p", "size"], 0, {}), "random.poisson": (["lam", "size"], 0, {}),
+    "random.choice": (["a", "size", "replace", "p"], 1, {"replace": True}),
+    "random.normal": (["loc", "scale", "size"], 0, {}),
+}
+
+
+def canonical_call(name, args, kwargs):
+    sig = NP_SIGS.get(name)
+    if sig is None or any(isinstance(a, Star) for a in args):
+        return list(args), dict(kwargs)
+    names, npos, defaults = sig
+    args, kwargs = list(args), dict(kwargs)
+    for i, a in enumerate(args[npos:], start=npos):
+        if i < len(names) and names[i] not in kwargs:
+            kwargs[names[i]] = a
+    args = args[:npos]
+    # leading parameters given by keyword become positional when all earlier ones are present
+    while len(args) < npos and names[len(args)] in kwargs:
+        args.append(kwargs.pop(names[len(args)]))
+    for k, d in defaults.items():
+        kwargs.setdefault(k, Const(d))
+    return args, kwargs
+
+
 def np_call(ev, name, args, kwargs, node):
     from .evalr import Lst, Dct, Obj, storage_root, FuncV
 
+    args, kwargs = canonical_call(name, args, kwargs)
     A = [a for a in args]
 
     def arg(i, kw=None, default=None):
@@ -490,14 +529,12 @@ def np_call(ev, name, args, kwargs, node):
         x = arg(0, "a")
         fn = {"min": "amin", "max": "amax"}.get(name, name)
         items = ev.concrete_items(x) if isinstance(x, (Lst, Tup)) else None
-        if items is not None and name == "sum" and "axis" not in kwargs and len(A) == 1 and all(to_poly(as_v(ev, i)) is not None for i in items):
+        if items is not None and name == "sum" and "axis" not in kwargs and all(to_poly(as_v(ev, i)) is not None for i in items):
             tot = Const(0)
             for i in items:
                 tot = add(tot, as_v(ev, i))
             return tot
         kw = _kw(ev, kwargs)
-        if len(A) > 1:
-            kw.append(("axis", as_v(ev, A[1])))
         xv = as_v(ev, x)
         if name == "sum":
             blk = _block_sum(ev, xv, dict(kw).get("axis"))
@@ -526,6 +563,18 @@ def np_call(ev, name, args, kwargs, node):
         return TRUE
     if name == "finfo":
         return App("finfo", ())
+    if name == "flip" and A:
+        ax = arg(1, "axis")
+        xv = as_v(ev, A[0])
+        if ax is not None and is_const(as_v(ev, ax)) and const_of(as_v(ev, ax)) == 0:
+            return getitem(ev, xv, App("slice", (Const(None), Const(None), Const(-1))))
+        return App("flip", (xv,), _kw(ev, kwargs))
+    if name == "atleast_1d" and len(A) == 1:
+        xv = as_v(ev, A[0])
+        nd = shape_fact("ndim", strip_fresh(xv))
+        if is_const(nd):
+            return xv if const_of(nd) >= 1 else mk_app("expand_dims", [xv], [("axis", Const(0))])
+        return ite(compare("==", nd, Const(0)), App("expand_dims", (xv,), [("axis", Const(0))]), xv)
     if name in PURE_UNINTERPRETED:
         return App(name, [as_v(ev, a) for a in A], _kw(ev, kwargs))
     ev.note_unmodelled("numpy." + name, node)
@@ -824,6 +873,7 @@ def call_method(ev, recv, name, args, kwargs, node):
     if name == "join":
         return App("str.join", (v,) + tuple(as_v(ev, a) for a in args))
     if isinstance(v, Sym) and "rng" in v.tags:
+        args, kwargs = canonical_call("random." + name, list(args), dict(kwargs))
         draw = ev.fresh("draw")
         r = App("rng:" + name, [as_v(ev, a) for a in args] + [draw], _kw(ev, kwargs))
         ev.event("rng", source=v, fn=name, args=[as_v(ev, a) for a in args], kwargs=dict(kwargs), node=node, result=r)
@@ -860,7 +910,19 @@ def _idx_disjoint(i, j):
 
 
 def getitem(ev, base, idx, node=None):
-    from .evalr import Lst, Dct, Obj, RaiseSignal, FuncV
+    from .evalr import Lst, Dct, Obj, RaiseSignal, FuncV, ClassV
+
+    if isinstance(base, ClassV) and base.ci.is_enum:
+        members = ev.enum_members(base.ci)
+        if isinstance(idx, Const):
+            for m_ in members:
+                if m_.name == idx.value:
+                    return m_
+            raise RaiseSignal(App("KeyError", (idx,)), node)
+        for m_ in members[:-1]:
+            if ev.decide(compare("==", idx, Const(m_.name))):
+                return m_
+        return members[-1]
 
     if isinstance(base, Obj):
         m = base.cls.find_method("__getitem__")
